@@ -1,4 +1,5 @@
 import SSVerif.Proofs.FsgFile
+import SSVerif.Proofs.FsgBest
 /-!
 # C13 — Grammar transformations and FSG files preserve the grammar
 
@@ -182,6 +183,27 @@ theorem C13_accepts_iff_nfa (F : Nat → Bool) (B : Nat → Nat) (g : Fsg) (ws :
     (acceptsReal F B g ws ↔ SSVerif.Nfa.Accepts (project F B g).toNfa ws) :=
   ⟨accepts_iff_nfa g ws, by rw [acceptsReal_iff_project]; exact accepts_iff_nfa _ ws⟩
 
+/-! ## the executable best-path oracle -/
+
+/-- **The executable best-path function the driver runs is exact**, for every grammar: when
+`bestLogProb?` answers (`some r`), `r` is the best log-probability of an accepting path for `ws`
+(`some v ↔ IsBest g ws v`) or says that `ws` is not accepted (`none ↔ ¬ accepts g ws`).  So the
+best-probability comparison between what the C code returned before and after a transformation
+is decided by a verified function. -/
+theorem C13_bestLogProb_sound (g : Fsg) (ws : List Nat) (r : Option Int) (h : bestLogProb? g ws = some r) :
+    (∀ v, r = some v ↔ IsBest g ws v) ∧ (r = none ↔ ¬ accepts g ws) :=
+  bestLogProb_sound g ws r h
+
+/-- … and it always answers when null log-probabilities are `≤ 0` (null cycles included): the
+fixpoint of each closure is reached within the fuel `closeFuel g` -/
+theorem C13_bestLogProb_total (g : Fsg) (h0 : NullLe0 g) (ws : List Nat) : ∃ r, bestLogProb? g ws = some r :=
+  bestLogProb_total g h0 ws
+
+/-- both: `bestLogProb g ws = some v ↔ IsBest g ws v` and `= none ↔ ¬ accepts g ws` -/
+theorem C13_bestLogProb_iff (g : Fsg) (h0 : NullLe0 g) (ws : List Nat) :
+    (∀ v, bestLogProb g ws = some v ↔ IsBest g ws v) ∧ (bestLogProb g ws = none ↔ ¬ accepts g ws) :=
+  bestLogProb_iff g h0 ws
+
 /-! ## non-vacuity: concrete grammars meeting the hypotheses -/
 
 /-- 4 states; null chain 0 → 1 → 2 closed into a cycle by 2 → 0, a null shortcut 0 → 2 worse than
@@ -214,6 +236,12 @@ example : nullLookup (closure ex2) 0 2 = some (-10) := by decide
 
 -- "stop go" is accepted with best log-probability -5 + -1 + -7 after the closure, -2 + -3 + -1 + -7 before
 example : IsBest ex1 [1, 0] (-13) ↔ IsBest (closure ex1) [1, 0] (-13) := ((C13_closure_preserves_best ex1 ex1_wf ex1_noSat).1 [1, 0] (-13)).symm
+
+-- the executable oracle on ex1 (null cycle 0 → 1 → 2 → 0): -13 for "stop go", rejection of "go stop"
+example : bestLogProb? ex1 [1, 0] = some (some (-13)) ∧ bestLogProb? ex1 [0, 1] = some none ∧
+    bestLogProb? (closure ex1) [1, 0] = some (some (-13)) := by decide
+
+example : IsBest ex1 [1, 0] (-13) := ((C13_bestLogProb_sound ex1 [1, 0] _ (by decide)).1 (-13)).1 rfl
 
 example : accepts ex1 [1, 0] :=
   ⟨_, .eps (l := ⟨0, 1, -2, none⟩) (by decide) rfl (.eps (l := ⟨1, 2, -3, none⟩) (by decide) rfl
